@@ -5,6 +5,7 @@
 use another_rxrust::prelude::*;
 use serde::{Deserialize, Serialize};
 use std::sync::{Arc, Mutex};
+use std::time::Duration;
 
 #[derive(Deserialize, Serialize, Clone, Debug, PartialEq)]
 pub struct Ev {
@@ -184,7 +185,16 @@ pub fn err(e: i64) -> RxError {
 }
 /// C04: the payload must come back unchanged; anything else is logged as -1
 pub fn payload(e: &RxError) -> i64 {
-  *e.downcast_ref::<i64>().unwrap_or(&-1)
+  if let Some(x) = e.downcast_ref::<i64>() {
+    return *x;
+  }
+  // timeout's TimedOut error is reported as -2, anything else unexpected as -1
+  if let Some(io) = e.downcast_ref::<std::io::Error>() {
+    if io.kind() == std::io::ErrorKind::TimedOut {
+      return -2;
+    }
+  }
+  -1
 }
 
 pub fn build(t: &Term, w: &W) -> O {
@@ -281,6 +291,19 @@ pub fn build(t: &Term, w: &W) -> O {
         inner.clone()
       })
     }
+    // ---- schedulers and time (concurrent cases only; the clock is the runtime's virtual clock)
+    "observe_on" => i0().observe_on(schedulers::new_thread_scheduler()),
+    "subscribe_on" => i0().subscribe_on(schedulers::new_thread_scheduler()),
+    "interval" => observables::interval(Duration::from_millis(a as u64), schedulers::new_thread_scheduler()).map(|x| x as i64),
+    "timer" => {
+      let v = t.b;
+      observables::timer(Duration::from_millis(a as u64), schedulers::new_thread_scheduler()).map(move |_| v)
+    }
+    "delay" => i0().delay(Duration::from_millis(a as u64)),
+    "timeout" => i0().timeout(Duration::from_millis(a as u64), schedulers::new_thread_scheduler()),
+    "debounce" => i0().debounce(Duration::from_millis(a as u64), schedulers::new_thread_scheduler()),
+    "time_interval" => i0().time_interval().map(|_| 0),
+    "timestamp" => i0().timestamp().map(|(_, x)| x),
     // ---- single-source operators
     "identity" => i0().map(move |x| {
       let _ = &tok;
